@@ -248,6 +248,7 @@ def prop_C13(run):
     rules_unit.parenthesized_span(run)
     rules_unit.line_column_counts(run)
     rules_unit.walker_text(run)
+    rules_unit.unresolved_constant_location(run)   # (F83, listed)
     import rules_sym
     rules_sym.declare_rules(run)
     reach = reach_roots(run)
@@ -408,6 +409,8 @@ def prop_C14(run):
     rules_mpt.inclusion(run)
     rules_mpt.body_file_rule(run)
     rules_mpt.include_parses_every_time(run)
+    import rules_asm as _ra
+    _ra.asm_argument_file_rule(run)             # (F84, listed)
     import rules_cond
     rules_cond.nested_include_rule(run)
     n = lim2_obligations(run, only=lambda key, f: "eval_builtin_inc" in key or "file_navigation" in key)
